@@ -1890,8 +1890,8 @@ class GramStack(Stack):
             blockeds = [] # will always be empty since only once
             if self.txPkts:
                 self._serviceOneTxPkt(laters, blockeds)
-            while laters:
-                self.txPkts.append(laters.popleft())
+            while laters:  # put back at the front to keep sequential per destination
+                self.txPkts.appendleft(laters.pop())
 
     def transmit(self, pkt, ha=None):
         """
